@@ -125,6 +125,23 @@ Definition spec_nets (cfg : string) : option (list net) :=
 (* nothing configured: the built-in default applies *)
 Definition spec_or_default (d l : list net) : list net := match l with [] => d | _ => l end.
 
+(* ---- "configured" after reloads ---------------------------------------------
+   The lists in effect are those of the configuration the server loaded last: the file it
+   was started with, replaced by every later file it was told to reload.  An option that
+   is not in a file configures nothing (the same as an empty text: the built-in default
+   applies - in particular an option that was REMOVED from the file no longer configures
+   anything).  A text that is invalid is not loaded: at start there is no server then, on
+   a reload the option keeps the meaning it had.  Written with filter / last, not as a
+   fold over the reloads. *)
+Definition cfg_text (o : option string) : string := match o with Some s => s | None => "" end.
+Definition in_effect (start : option string) (reloads : list (option string)) : option string :=
+  if config_valid (cfg_text start)
+  then match last_opt (filter config_valid (map cfg_text reloads)) with
+       | Some c => Some c
+       | None => Some (cfg_text start)
+       end
+  else None.
+
 Definition trace := list (op * out).
 
 Definition P_step (e : op * out) : bool :=
@@ -169,6 +186,31 @@ Definition P_step (e : op * out) : bool :=
       | Some _, VParsed _ => true
       | None, VReject => true
       | _, _ => false
+      end
+  (* a server with a configuration history answers as the configuration in effect says
+     (the clauses of OCfgHub / OCfgStats for that text) *)
+  | (OHistHub st rl peer xr xff, v) =>
+      match in_effect st rl, v with
+      | Some cfg, VAddr s =>
+          match spec_nets cfg with
+          | Some t => String.eqb s (spec_addr (Some (spec_or_default default_trusted t)) peer xr xff)
+          | None => false
+          end
+      | None, VReject => true
+      | _, _ => false
+      end
+  | (OHistStats ep st rl peer xr xff, v) =>
+      match in_effect (fst st) (map fst rl), in_effect (snd st) (map snd rl), v with
+      | Some tcfg, Some acfg, VStatus c =>
+          match spec_nets tcfg, spec_nets acfg with
+          | Some t, Some al =>
+              Bool.eqb (N.eqb c 200)
+                (spec_gate (spec_or_default default_trusted t) (spec_or_default default_stats_allowed al) peer xr xff)
+          | _, _ => false
+          end
+      | Some _, Some _, _ => false
+      | _, _, VReject => true
+      | _, _, _ => false
       end
   | _ => false
   end.
